@@ -83,6 +83,18 @@ pub fn run(ctx: &'static Ctx) {
             m.fetch_add(1, Ordering::Relaxed);
         }
     });
+    // integer elements of every width and carrier, alone and between other elements (the builder is fed through its sink interface)
+    let ints: Vec<T> = [0u64, 1, 0xff, 0x100, 0xffff, 0x1_0000, 0xffff_ffff, 0x1_0000_0000, 0x1122_3344_5566_7788, 0x8000_0000_0000_0001, u64::MAX]
+        .iter()
+        .flat_map(|v| [T::Int(*v, Carrier::U64), T::Int(*v, Carrier::Usize)])
+        .chain([T::Int(0x12, Carrier::U8), T::Int(0x1234, Carrier::U16), T::Int(0x1234_5678, Carrier::U32), T::Eisa("PNP0A03".into()), T::Uuid("01234567-89ab-cdef-fedc-ba9876543210".into()), T::Str("s".into(), false)])
+        .collect();
+    for x in &ints {
+        for l in [vec![x.clone()], vec![T::One, x.clone(), T::Zero], vec![x.clone(), x.clone()]] {
+            same(ctx, "alt:package:ints", l.len() as u64, &T::PackageBuilder(l.clone()), &T::Package(l.clone()), || format!("package of {:?}", l));
+            m.fetch_add(1, Ordering::Relaxed);
+        }
+    }
     ctx.engine("E4.package-builder", json!({"pairs": m.load(Ordering::Relaxed), "element_counts": "0..=255 x 9 fillers; all lists <=3; nested"}));
 
     // ---- borrowed vs owned strings, every length 0..=300 (and a long one)
